@@ -21,8 +21,13 @@ CONFIG = {
                   "written (sink_error_never_swallowed, source_error_never_swallowed, ok_is_whole_document); every successful "
                   "event stream is properly nested with one root element, its element names are rdf:RDF, rdf:Description or "
                   "NCNames when the predicates have an NCName suffix, and no tag repeats an attribute (wellformed_partial: the "
-                  "structural part of 'well-formed'; XML Char-ness of the rendered characters and the grammar itself are not "
-                  "proved); "
+                  "structural part of 'well-formed'); the whole output consists of XML Chars whenever every string of every "
+                  "strict triple does (output_xml_legal; necessary: output_illegal_witness) - the XML grammar itself is not "
+                  "proved; the model reader expands numeric character references as quick-xml's parse_number does "
+                  "(unescape_char_ref; a CR written as &#xD; would survive a conforming reader: cr_char_ref_survives); the "
+                  "round-trip clause at full strength (FullRoundtrip: XML-legal, qname-able graph => reader returns the graph) "
+                  "is stated and REFUTED by a kernel-checked witness (full_roundtrip_false, the whitespace-only literal), the "
+                  "provable part being roundtrip_partial; "
                   "unescape . escape = id on every string; what a conforming XML 1.0 reader delivers for escaped text and "
                   "attribute values (CR in text, TAB/LF/CR in attributes are the only characters lost); split_iri yields an "
                   "NCName local part with ns++local = IRI, or the pseudo name 'prop:' exactly when no suffix is an NCName; the "
@@ -33,7 +38,10 @@ CONFIG = {
                   "syntax name, literal text not whitespace-only), each hypothesis shown necessary by a kernel-checked "
                   "counterexample; and the reader's result is independent of the indentation for ALL graphs. The third-party "
                   "core (rio_xml formatter and parser, quick-xml writer and reader) is tied to these models ONLY by the "
-                  "differential: byte-exact output and identical parsed graph on generated graphs. The property itself "
+                  "differential: byte-exact output and identical parsed graph on generated graphs, and - independently of "
+                  "the model writer - the model READER against the real parser on the real serialiser's bytes (`rd`: verbatim, "
+                  "with characters and entities rewritten as numeric character references in text and attribute values, and "
+                  "with odd / malformed references; about 2000 documents per quick run, 0 differences). The property itself "
                   "(error, or namespace-well-formed and isomorphic; same parse for indentation 0..8) is judged on the real "
                   "code by an independent oracle in the harness.",
     "level_note": "Trusted: the hand models of rio_xml 0.8.6 / quick-xml 0.36.2 (only as good as the differential), own XML "
@@ -74,15 +82,20 @@ CONFIG = {
             "leading CR), graphs of 20..60 triples; `sink` requests run the serialiser into a writer that accepts N bytes "
             "(every N for a small document, random N / end-relative N otherwise: inside the declaration, the body, the end "
             "tags written by finish(), exactly enough) and `src` requests with a triple source that fails after k triples. "
-            "Non-trivial = the serialiser succeeded and at least one triple was written (sink/src requests: always).",
+            "`rd` requests: the real serialiser's document for every third random graph, verbatim, with the same characters "
+            "written as decimal / hex references (entities, CR, TAB, LF, space, non-ASCII, alphanumerics; in text and in "
+            "attribute values), and with one odd (&#1; &#xFFFF; &#x20; ...) or malformed (&#0; &#xD800; &#x110000; &#; &#X41; "
+            "&foo; unterminated ...) reference in an element's text - real parser vs model reader. "
+            "Non-trivial = the serialiser succeeded and at least one triple was written (sink/src/rd requests: always).",
     "trusted_base": ["hand models of rio_xml 0.8.6 formatter/parser and quick-xml 0.36.2 writer/escape: lean/SophiaModel/Model/XmlGlue.lean "
                      "(watched by the byte-exact / parsed-graph differential only)",
                      "own well-formedness checker, isomorphism test and scope classifier in harness/props/c18/src/main.rs",
                      "XML 1.0 Char / NameStartChar / NameChar classes and sections 2.11, 3.3.3 transcribed from memory"],
     "assumptions": ["IRIs of generated graphs are valid absolute IRIs and language tags are well-formed BCP47 (the model reader "
                     "does not re-validate them as oxiri / oxilangtag do)",
-                    "quick-xml 0.36 reader = tokeniser of the model on the writer's vocabulary (no comments, CDATA, DTD, "
-                    "numeric character references)"],
+                    "quick-xml 0.36 reader = tokeniser of the model on the writer's vocabulary plus numeric character references "
+                    "in text and attribute values (no comments, CDATA, DTD; references inside names or between attributes are "
+                    "malformed XML and belong to C08)"],
 }
 
 CONFIG["theorems"] = [
@@ -119,6 +132,12 @@ CONFIG["theorems"] = [
     "default_is_unindented",
     "wellformed_partial",
     "events_well_nested",
+    "output_xml_legal",
+    "output_illegal_witness",
+    "unescape_char_ref",
+    "cr_char_ref_survives",
+    "full_roundtrip_false",
+    "split_iri_empty_iff_needs_break",
 ]
 
 
